@@ -264,12 +264,14 @@ def gen_scenario(rng, dims=(1, 2, 3, 4, 5), fams=None, max_iters=600, refine=Non
     par = gen_params(rng, N, max_iters=max_iters, refine=refine, m=m)
     scn = {"N": N, "lower": lo, "upper": hi, "box": kind, "obj": obj}
     scn.update(par)
+    # how the objective hands its value back: in the supplied holder, or in a fresh FunctionValue it returns
+    scn["holder"] = "new" if rng.random() < 0.25 else "same"
     return scn
 
 
 def short(scn):
     """Compact description for evidence samples."""
-    d = {k: scn[k] for k in ("N", "box", "r", "eps", "iters", "m", "refine") if k in scn}
+    d = {k: scn[k] for k in ("N", "box", "r", "eps", "iters", "m", "refine", "holder") if k in scn}
     d["fam"] = scn["obj"]["fam"] if "obj" in scn else scn.get("bench")
     if "pattern" in scn:
         d["pattern"] = scn["pattern"]
